@@ -87,6 +87,8 @@ func checkC15(c *Ctx) {
 	c.Rule("C15.R8", "the per-route hooks of the admin server (targets, publish switches, managed info, limits) select the compiled route by the same predicate — sibling agreement, so a name that exists for one exists for all")
 	c.Rule("C15.R9", "valid header names/values: the byte classes the header validator accepts, extracted as interval sets from the comparisons that follow each element read, are RFC 7230's tchar for names and non-control bytes (HTAB allowed, DEL not) for values — the classes net/http enforces at delivery")
 	checkHeaderByteClasses(c, "C15.R9")
+	c.Rule("C15.R10", "publish policy follows a reload: every runtimeState field that start-up derives from the compiled configuration — whatever the per-route publish hooks (switches, targets, limits, managed info) read — is derived again on the reload path (the analysis of C18.R12, claimed here because a route index that only start-up builds makes the publish preflight judge items against the configuration the process started with)")
+	checkReloadRederives(c, "C15.R10", reloadEntries(c.P))
 	var hs []*ssa.Function
 	for _, f := range publishHandlers(p) {
 		if len(allCalls(f, isBatchEnqueue)) > 0 {
